@@ -73,7 +73,16 @@ def dlOp (md variant t idle down up : String) : String :=
     then (rx.dropEnd 3).toString ++ "timeout" else rx
   s!"rx: {rx} | tx: {tx}"
 
-def handle : List String → String
+/-- one step of `c08.seq` as the single operation it is: `d:<segments>` = `c08.read`, `w:<md>:<msgs>` and
+`t:<md>:<msgs>` (the same over the repository's TCP connection; the peer's bytes) = `c08.write` -/
+def seqStep (t : String) : Option (List String) :=
+  match t.splitOn ":" with
+  | ["d", segs] => some ["c08.read", segs]
+  | ["w", md, msgs] => some ["c08.write", md, msgs]
+  | ["t", md, msgs] => some ["c08.write", md, msgs]
+  | _ => none
+
+def handle1 : List String → String
   | ["c08.write", md, msgs] =>
     match parseMode? md, parseBytesList? msgs with
     | some md, some ms =>
@@ -104,5 +113,17 @@ def handle : List String → String
       | none => "bad-op"
     | none => "bad-op"
   | _ => "bad-op"
+
+/-- `c08.seq`: operations of one process one after another. The model's operations are functions of their
+input alone — nothing is carried from one connection to the next — so each step is answered as the single
+operation it is. -/
+def handle : List String → String
+  | "c08.seq" :: step :: steps =>
+    match (step :: steps).mapM seqStep with
+    | some ops =>
+      let outs := ops.map handle1
+      if outs.any (· == "bad-op") then "bad-op" else " ; ".intercalate outs
+    | none => "bad-op"
+  | op => handle1 op
 
 end Driver.C08
